@@ -199,13 +199,6 @@ def define_entity(draw, M, kind, n, sols_now):
                 c["rate"] = "r_unguarded"
         seen = set()
         d["comps"] = [c for c in d["comps"] if not (c["rate"] in seen or seen.add(c["rate"]))]
-        phases = set(CG.DB[DB]["minerals"])
-        for c in d["comps"]:
-            # known finding (GetComponent between calls): a -formula list of >= 2 names that holds a phase name makes
-            # Phreeqc::calc_dummy_kinetic_reaction_tally store the phase name as an element; excluded by construction
-            if len(c["formula"]) >= 2 and any(nm in phases for nm, _ in c["formula"]):
-                c["formula"] = [x for x in c["formula"] if x[0] not in phases] or c["formula"][:1]
-                M.feats.add("excluded_kinetics_formula_list_with_phase_name")
         d["cvode"] = False               # CVODE together with a surface / gas phase can take minutes per step
         if "times" in d:                 # keep the integration short: at most 1000 s per step
             d["times"] = [float("%.3g" % min(t, 1000.0 * (i + 1))) for i, t in enumerate(d["times"])]
@@ -326,10 +319,6 @@ def simulation(draw, M, k, nsim):
         F.add(kd)
     # ---- action ----------------------------------------------------------------------------------------------
     avail = {kd: set(M.ent[kd]) | set(defined_here[kd]) for kd in M.ent}
-    # a simulation with a MIX in use never holds an initial exchange/surface/gas calculation and is never generated while
-    # INCREMENTAL_REACTIONS is true: if such a step fails to converge the engine dereferences a null mix pointer
-    # (Phreeqc::Use2cxxStorageBin) instead of reporting the error - a crash outside this property's domain
-    initial_calc = any("-equilibrate" in t for t in P)
     act = draw(st.sampled_from(["batch", "batch", "batch", "none", "mix", "copy", "cells", "advect", "delete"])) if avail["solution"] else "none"
     saves = []
     deletes = []
@@ -352,15 +341,11 @@ def simulation(draw, M, k, nsim):
                 F.add(kd)
                 if n not in defined_here[kd]:
                     F.add("use_reactant_of_earlier_simulation")
-        if avail["mix"] and _bool(draw, 1, 4) and (M.incr or initial_calc):
-            F.add("excluded_mix_with_incremental_or_equilibrate")
-        elif avail["mix"] and _bool(draw, 1, 4):
+        if avail["mix"] and _bool(draw, 1, 4):
             n = draw(st.sampled_from(sorted(avail["mix"])))
             P.append("USE mix %d" % n)
             use["mix"] = n
             F.add("use_mix_of_earlier_simulation")
-    elif act == "mix" and (M.incr or initial_calc):
-        F.add("excluded_mix_with_incremental_or_equilibrate")
     elif act == "mix":
         m = draw(st.sampled_from(NUMS))
         parts = draw(st.lists(st.sampled_from(sorted(avail["solution"])), min_size=1, max_size=3, unique=True))
@@ -385,10 +370,6 @@ def simulation(draw, M, k, nsim):
         F.add("copy")
     elif act == "cells":
         cells = draw(st.lists(st.sampled_from(sorted(avail["solution"])), min_size=1, max_size=3, unique=True))
-        if M.incr and any(c in avail["mix"] for c in cells):
-            F.add("excluded_mix_with_incremental_or_equilibrate")
-            cells = [c for c in cells if c not in avail["mix"]]
-    if act == "cells" and cells:
         P.append("RUN_CELLS\n -cells %s\n -time_step %s" % (" ".join(str(c) for c in cells), fmt(draw(cg.logu(1.0, 1e4, 2)))))
         F.add("run_cells")
         if any(c not in defined_here["solution"] for c in cells):
